@@ -5,6 +5,11 @@ import "time"
 var _ = time.Second
 
 func init() {
+	reg("C13", propCfg{
+		index: 13,
+		rule: "(1) rejections, enumerated completely: every method name and the embedded field name of the runtime container as getter, Must-prefix and InContext-suffix variants, the 18-row truth table must_getter x default_must_getter x getter present, equal getters on two services (also with a todo service). (2) accepted configurations from the behavioural generator over getter x type form (none, pointer, struct, interface, named int/slice/func, every import spelling, own package) x must_getter x default_must_getter x meta names: the probe reflects the method set of the generated pointer type, which must equal promoted(*container.Container) + {G, GInContext, and MustG/MustGInContext exactly when the rule says} with exact fully-qualified signatures and the configured type name; G() and GInContext() must return what Get(name) returns (same instance by the scope rules), errors for failing/todo-dependent services, MustG panics on them. (3) the documented defaults main / Gontainer / NewGontainer, linked as their own binary. Non-trivial = a getter with an explicit or default must setting or a non-pointer type, and every rejection case; distinct by hash",
+		assume: []string{"the expected promoted API is read by reflection from the pinned runtime the harness links"},
+	})
 	reg("C05", propCfg{
 		index: 5,
 		rule: "(a) verdict: every acyclic dependency graph on 2 and 3 services x edge kind {argument, field, call argument, !tagged through a tag, decorator-on-tag with a dependency} x every assignment of {unset, shared, contextual, non_shared} (thorough: additionally rapid-sampled graphs on 3..4 services with mixed edge kinds): rejected in the Scope step iff a declared-shared service reaches a declared-contextual one, and the reported (shared, contextual) pairs equal the model's. (b) behaviour: scope-heavy accepted configurations with a rapid-drawn history of 2..8 Get / GetInContext(A|B) / GetTaggedBy operations; the DI interpreter predicts the partition of all object occurrences into instances (shared: one per container; non_shared: fresh per injection and per Get; contextual: one per Get call tree or attached context, never across contexts; unset: contextual iff it transitively reaches a declared contextual service), compared with instance serial numbers modulo a bijection. Non-trivial = (a) a graph with at least one edge and a shared or contextual declaration, (b) a contextual or non_shared service referenced by another service and a history of >= 2 operations; distinct by hash",
